@@ -7,3 +7,26 @@ def declare(check, na):
     check('C28', 'exploration', 'reference-recogniser oracle over exhaustive small-alphabet strings + random hostile Unicode + icontract post-conditions on the repo tests',
           'every string over a hostile 8-symbol alphabet up to length 6/7 plus seeded random strings is run through the real validators and compared with hand-written recognisers of the two stated languages; held means no disagreement on the strings listed in the evidence',
           'trusted: the two recognisers in vf/monitors/c28.py')
+
+    SQL_NOTE = ('trusted: minimysql (in-tree interpreter of the MySQL subset the batch SQL uses; whole transactions are atomic steps), '
+                'shims for missing third-party packages, fakes for file store / k8s / worker HTTP / cloud; witnesses explained by a recorded defect '
+                'pattern are attributed to that known finding (known_findings.json)')
+    SQL_TECH = 'invariant oracle after every committed transaction over fuzzed histories of the real front-end/driver code running on the repository SQL (minimysql)'
+    check('C01', 'exploration', SQL_TECH,
+          'scheduler/canceller counters are recounted from jobs after every commit of thousands of fuzzed histories (cancel/commit/schedule/complete/deactivate/cleanup in any order); held = no unexplained disagreement on the histories listed in the evidence',
+          SQL_NOTE)
+    check('C02', 'exploration', SQL_TECH + '; per-date shadow ledger',
+          'billing aggregates (per job, group+ancestors, billing project/user, per day) are recomputed from attempts x attempt_resources after every commit, with compaction, late/duplicate messages and date roll-over in the histories',
+          SQL_NOTE)
+    check('C04', 'exploration', 'job-state edge monitor between consecutive committed states + tally recount, under duplicated/late/stale worker messages',
+          'every committed jobs.state change is checked against the lifecycle graph and the completed/succeeded/failed/cancelled tallies are recounted after every commit',
+          SQL_NOTE)
+    check('C05', 'exploration', SQL_TECH + ' (dependency gating) + edge monitor',
+          'after every commit: non-Pending committed jobs have only terminal parents, failed parents imply cancelled=1, n_pending_parents equals the live parents; cancelled non-always-run jobs never enter Creating/Running',
+          SQL_NOTE)
+    check('C06', 'exploration', SQL_TECH + ' + the real GET paths compared with a recount',
+          'batch / job-group state, n_jobs, time_completed and the views returned by _get_batch/_get_job_group are compared with a recount over committed jobs after every commit / at sampled GETs',
+          SQL_NOTE)
+    check('C10', 'exploration', SQL_TECH + ' (free-core conservation)',
+          'instances_free_cores_mcpu is recomputed as cores minus open attempts after every commit, for pool and job-private instances under duplicate/stale reports, unschedule and deactivation',
+          SQL_NOTE)
